@@ -18,12 +18,44 @@ from .c07b import S, tg
 N, D = 11, 3        # samples, features of the representative arrays
 
 
+def _floatish(t):
+  """does this dtype argument denote (a conversion to) a floating dtype?"""
+  if isinstance(t, (list, tuple)) and t:
+    return _floatish(t[0])
+  return t in (Lib('float'), Lib('numpy.float64'), Lib('numpy.float32'),
+               Lib('numpy.float_'), Lib('numpy.double'), Lib('numpy.floating'),
+               'float', 'float64', 'float32', 'f8', 'd')
+
+
+def _intish(t):
+  return t in (Lib('int'), Lib('numpy.integer'), Lib('numpy.signedinteger'),
+               Lib('numpy.unsignedinteger'), Lib('numpy.int64'))
+
+
+def _base(stage):
+  return stage.split('+')[0]
+
+
+def _is_f(stage):
+  return stage.endswith('+f')
+
+
+def _to_f(v):
+  return v if _is_f(v[2]) else S('arr', v[1], v[2] + '+f')
+
+
 class _ValWorld(World):
   def __init__(self, sc):
     self.sc = sc
     self.strict_calls = []
     self.perm_calls = []
     self.label_checks = 0
+    # the validated labels are a concrete vector, so that whatever test of
+    # the label alphabet the code uses is simply evaluated
+    ys = ([1, -1] * N)[:N]
+    if sc.get('y') == 'invalid':
+      ys[3] = 2
+    self.yarr = Arr(ys)
     self.pre_calls = 0
 
   # ---- arrays: S('arr', kind, stage) with kind in
@@ -45,6 +77,12 @@ class _ValWorld(World):
             4: (N, self.sc['d'], 2, 2)}[nd]
 
   def attr(self, it, v, attr, node):
+    if tg(v) == 'arr' and attr == 'dtype' and self.sc.get('dt'):
+      return S('dtype', 'f' if _is_f(v[2]) else self.sc['dt'])
+    if tg(v) == 'dtype' and attr in ('kind', 'char'):
+      return v[1] if attr == 'kind' else {'f': 'd', 'i': 'l', 'u': 'L'}[v[1]]
+    if tg(v) == 'dtype' and attr == 'type':
+      return v
     if tg(v) == 'arr':
       if attr == 'shape':
         return self.shape_of(v)
@@ -77,10 +115,40 @@ class _ValWorld(World):
     return NotImplemented
 
   def compare(self, it, op, a, b, node):
+    for x, y in ((a, b), (b, a)):
+      if tg(x) == 'dtype' and isinstance(op, (ast.Eq, ast.NotEq)):
+        if _floatish(y) and not isinstance(y, (list, tuple)):
+          r = x[1] == 'f' and y not in (Lib('numpy.float32'), 'float32')
+        elif _intish(y) or y in ('int', 'int64'):
+          raise Undecided('comparison of the data dtype with one integer '
+                          'type')
+        else:
+          return NotImplemented
+        return r if isinstance(op, ast.Eq) else not r
+    # an option the caller passes is an opaque object of its own: it equals
+    # no literal (the default values are covered by the default-option
+    # scenarios of validated_dtype)
+    for x, y in ((a, b), (b, a)):
+      if tg(x) == 'o' and isinstance(y, (str, int, float, type(None))) and \
+              isinstance(op, (ast.Eq, ast.NotEq)):
+        return isinstance(op, ast.NotEq)
     # |y| != 1 / |y| == 1 element-wise
     for x, y in ((a, b), (b, a)):
-      if tg(x) == 'absy' and y == 1 and isinstance(op, (ast.Eq, ast.NotEq)):
+      if tg(x) == 'absy' and (y == 1 or tg(y) == 'ones') and \
+              isinstance(op, (ast.Eq, ast.NotEq)):
         return S('ymask', isinstance(op, ast.NotEq))
+    return NotImplemented
+
+  def binop(self, it, op, a, b, node):
+    if self.sc.get('dt'):
+      for x, y in ((a, b), (b, a)):
+        if tg(x) == 'arr' and isinstance(y, float) and \
+                isinstance(op, (ast.Mult, ast.Add, ast.Sub, ast.Div)) and \
+                (y == 1.0 and isinstance(op, (ast.Mult, ast.Div)) and x is a
+                 or y == 1.0 and isinstance(op, ast.Mult)
+                 or y == 0.0 and isinstance(op, (ast.Add, ast.Sub)) and
+                 (x is a or isinstance(op, ast.Add))):
+          return _to_f(x)
     return NotImplemented
 
   def unary(self, it, op, v, node):
@@ -114,6 +182,42 @@ class _ValWorld(World):
       if tg(a) == 'arr' and a[1] == ('raw', 1):
         return S('arr', 'points', 'formed')
       raise Undecided('preprocessor applied to %r' % (a,))
+    if self.sc.get('dt'):
+      if d == '.astype' and tg(recv) == 'arr':
+        t = args[0] if args else kwargs.get('dtype')
+        if _floatish(t):
+          return _to_f(recv)
+        raise Undecided('astype(%r)' % (t,))
+      if d in ('numpy.asarray', 'numpy.array', 'numpy.asanyarray',
+               'numpy.ascontiguousarray', 'numpy.asfarray',
+               'numpy.require') and args and tg(args[0]) == 'arr':
+        t = kwargs.get('dtype', args[1] if len(args) > 1 else None)
+        if d == 'numpy.asfarray' or _floatish(t):
+          return _to_f(args[0])
+        if t is None:
+          return args[0]
+        raise Undecided('%s(dtype=%r)' % (d, t))
+      if d in ('numpy.float64', 'numpy.double') and len(args) == 1 and \
+              tg(args[0]) == 'arr':
+        return _to_f(args[0])
+      if d == 'numpy.issubdtype' and len(args) == 2 and \
+              tg(args[0]) == 'dtype':
+        k = args[0][1]
+        if args[1] in (Lib('numpy.integer'), Lib('int')):
+          return k in ('i', 'u')
+        if args[1] == Lib('numpy.signedinteger'):
+          return k == 'i'
+        if args[1] == Lib('numpy.unsignedinteger'):
+          return k == 'u'
+        if args[1] in (Lib('numpy.floating'), Lib('float'),
+                       Lib('numpy.inexact')):
+          return k == 'f'
+        if args[1] == Lib('numpy.number'):
+          return True
+        raise Undecided('issubdtype(%r)' % (args[1],))
+      if d == 'numpy.result_type' or d == 'numpy.promote_types' or \
+              d == 'numpy.can_cast':
+        raise Undecided(d)
     if d.startswith('.'):
       if d == '.format':
         return '<message>'
@@ -149,13 +253,15 @@ class _ValWorld(World):
                 sc['strict'] == 'nonnumeric':
           raise Raised(['ValueError'], node)
         out = S('arr', ('raw', nd), 'converted')
+        if _floatish(kw.get('dtype', 'numeric')):
+          out = _to_f(out)
         if short == 'check_X_y':
           y = args[1] if len(args) > 1 else kwargs.get('y')
           if y != S('y'):
             raise Undecided('labels %r' % (y,))
           if sc['y'] == 'mismatch':
             raise Raised(['ValueError'], node)
-          return (out, S('ychecked'))
+          return (out, self.yarr)
         return out
       # the strict check
       if short != 'check_array':
@@ -172,7 +278,8 @@ class _ValWorld(World):
       mf = kw.get('ensure_min_features', 1)
       if isinstance(mf, int) and mf > 0 and len(shp) == 2 and shp[1] < mf:
         raise Raised(['ValueError'], node)
-      return S('arr', x[1], 'checked')
+      out = S('arr', x[1], 'checked' + ('+f' if _is_f(x[2]) else ''))
+      return _to_f(out) if _floatish(kw.get('dtype', 'numeric')) else out
     if d.startswith('numpy.'):
       if short == 'concatenate' and len(args) == 1 and \
               isinstance(args[0], list) and kwargs.get('axis') == 1 and \
@@ -225,6 +332,57 @@ def _scenarios():
             out.append(dict(base, minf=0))
             out.append(dict(base, minf=3))
   return out
+
+
+def _int_scenarios():
+  """well-formed inputs of a signed / unsigned integer dtype, validated with
+  the default options"""
+  out = []
+  for kind, ndim, pre in (('tuples', 3, False), ('tuples', 3, True),
+                          ('tuples', 2, True), ('classic', 2, False),
+                          ('classic', 2, True), ('classic', 1, True)):
+    for y in (None, 'valid'):
+      for dt in ('i', 'u'):
+        out.append(dict(kind=kind, ndim=ndim, pre=pre, y=y, t=2, d=D,
+                        tuple_size=None, minf=1, strict='ok', dt=dt))
+  return out
+
+
+def validated_dtype(repo):
+  """('float' | 'int' | 'unknown', detail): the dtype of the data array that
+  `_util.check_input`, called with its default options, returns for
+  well-formed input of an integer dtype - decided by interpreting it."""
+  f = repo.get_func('_util.check_input')
+  if f is None:
+    return 'unknown', 'function vanished'
+  ps = f.params()
+  res = []
+  for sc in _int_scenarios():
+    w = _ValWorld(sc)
+    env = dict(input_data=S('in'), y=None if sc['y'] is None else S('y'),
+               preprocessor=S('pre') if sc['pre'] else None,
+               type_of_inputs=sc['kind'], estimator=S('estimator'))
+    env = dict((k, v) for k, v in env.items() if k in ps)
+    try:
+      it = Interp(repo, f, w)
+      for k, dnode in f.defaults().items():
+        if k not in env:
+          env[k] = it.ev(dnode)       # the documented default options
+      out = it.run(env)
+    except Undecided as u:
+      return 'unknown', '%s (kind=%s ndim=%s pre=%s)' % (
+          u, sc['kind'], sc['ndim'], sc['pre'])
+    if out[0] != 'return':
+      return 'unknown', 'raises %s for well-formed integer input' % (out[1],)
+    data = out[1][0] if isinstance(out[1], tuple) and len(out[1]) == 2 \
+        else out[1]
+    if tg(data) != 'arr':
+      return 'unknown', 'returns %r' % (data,)
+    res.append(_is_f(data[2]))
+  if all(res):
+    return 'float', 'converted to floating point on all %d routes' % len(res)
+  return 'int', 'the integer dtype of the input is preserved on %d of %d ' \
+      'routes' % (res.count(False), len(res))
 
 
 def _expected(sc):
@@ -341,12 +499,12 @@ def rule_validation_table(repo, rep):
     res = out[1]
     data, ylab = (res if isinstance(res, tuple) and len(res) == 2
                   else (res, None))
-    if want[2] != (ylab is not None) or (ylab is not None and
-                                         ylab != S('ychecked')):
+    if want[2] != (ylab is not None) or (ylab is not None and not (
+            isinstance(ylab, Arr) and list(ylab.xs) == list(w.yarr.xs))):
       fail('labels-returned', 'refuted', 'returns %r for %s (the validated '
            'labels are %s)' % (res, tag, 'expected' if want[2]
                                else 'not expected'))
-    if tg(data) != 'arr' or data[2] != 'checked':
+    if tg(data) != 'arr' or _base(data[2]) != 'checked':
       fail(clause, 'refuted', 'returns %r, not the strictly validated array '
            '(%s)' % (data, tag))
     elif data[1] != want[1]:
@@ -372,12 +530,8 @@ def rule_validation_table(repo, rep):
     if formed and w.pre_calls:
       fail('preprocessor-not-consulted', 'refuted', 'the preprocessor is '
            'called although formed data was given (%s)' % tag)
-    if sc['kind'] == 'tuples' and sc['y'] is not None and sc['t'] == 2 and \
-            w.label_checks == 0:
-      fail('pair-labels', 'refuted', 'pair labels are not checked for %s'
-           % tag)
   for clause in ('malformed-rejected', 'well-formed-accepted',
-                 'labels-returned', 'options-forwarded', 'pair-labels',
+                 'labels-returned', 'options-forwarded',
                  'preprocessor-not-consulted'):
     key = '_util.check_input:%s' % clause
     v = clauses.get(clause)
